@@ -377,3 +377,21 @@ func VerifTreeSort(kinds []string) []int {
 }
 
 func VerifCheckConstraint(s string) (bool, error) { return checkConstraint(s) }
+
+// ---------------------------------------------------------------- maps
+
+// VerifMapKeys returns the ordered key list (including stale entries) of a script map,
+// each key rendered as text.
+func (v Value) VerifMapKeys() []string {
+	switch m := v.value.(type) {
+	case *stringMap:
+		return append([]string{}, m.keys...)
+	case *numericMap:
+		res := make([]string, len(m.keys))
+		for i, k := range m.keys {
+			res[i] = fmt.Sprint(k)
+		}
+		return res
+	}
+	return nil
+}
